@@ -362,6 +362,22 @@ theorem legacy_validateLoop_poisoned_first (validate : α → VResult ε) (pre :
       Option.some.injEq, Prod.mk.injEq, and_true, true_and]
     omega
 
+/-! ### regrouping -/
+
+theorem insertByKey_perm (key : α → Int) (x : α) (l : List α) : (insertByKey key x l).Perm (x :: l) := by
+  induction l with
+  | nil => exact List.Perm.refl _
+  | cons y ys ih =>
+    unfold insertByKey
+    split
+    · exact (List.Perm.cons y ih).trans (List.Perm.swap x y ys)
+    · exact List.Perm.refl _
+
+theorem regroupBy_perm' (key : α → Int) (xs : List α) : (regroupBy key xs).Perm xs := by
+  induction xs with
+  | nil => exact List.Perm.refl _
+  | cons x xs ih => exact (insertByKey_perm key x _).trans (List.Perm.cons x ih)
+
 /-! ### fused blocks -/
 
 theorem applyBlock_of_panicked (ops : List (BlockOp α ε)) (st : Outcome α ε) (h : st.panic.isSome = true) :
